@@ -12,7 +12,7 @@ from harness.core import run_tlc, require_clean, MachineryError
 from harness.graph import Graph, Walker, Adapter
 from harness import tracecheck
 
-NAMES = ['A1', 'polyB', 'C', 'dd']    # multi-character names: a key string must not be iterated
+NAMES = ['polyB', 'A1', 'dd', 'C']    # multi-character names: a key string must not be iterated
 
 
 def cfg(n, sym, nxt, edge=True):
